@@ -5,12 +5,12 @@ C09 driver: parses the case lines that the harness executes against the real bac
 Case lines (shared with harness/c09/c09.c):
   load reg /c09/reg | mode net|console | meh ok|raise|recurse | clone o<k> /c09/obj
   script <oid> <kind> <ops>      oid: u<k> | o<k> | k<k> (k-th connect attempt: ops = err | rej)
-                                 kind: logon | input | cmd:<verb> | netdead | hb | co:<tag> | reset | cleanup | prompt | it:<tag> | connect
+                                 kind: logon | input | cmd:<verb> | netdead | hb | co:<tag> | reset | cleanup | prompt | snoop | it:<tag> | connect
   vapply o<k> do_ops <ops>       ops at set-up time
   preload ok,err,...|epilog-err  preload_objects(): epilog() names one file p<i> per entry; `err` = that file fails to load
   step <action>...               tick[:<dt>] conn:c<k> send:c<k>:<text> close:c<k> reset:c<k> cin:<text> idle
   run
-ops (';' separated): ok | err | cerr | dest:<oid|me> | co:<delay>:<tag> | hb:<n> | w:<text> | meh:<mode> | it:<tag>
+ops (';' separated): ok | err | cerr | dest:<oid|me> | co:<delay>:<tag> | hb:<n> | w:<text> | meh:<mode> | it:<tag> | snoop:<oid>
 -/
 import NV.Common.Proto
 import NV.C09.Model
@@ -43,6 +43,7 @@ def parseOp (s : String) : Option Op :=
   | ["w", t] => some (.w t)
   | ["meh", m] => (parseMeh m).map Op.meh
   | ["it", tag] => some (.it tag)
+  | ["snoop", t] => (parseOid t).map Op.snoop
   | _ => none
 
 def parseOps (s : String) : Option (List Op) :=
@@ -60,6 +61,7 @@ def parseKind (s : String) : Option Kind :=
   | ["reset"] => some .reset
   | ["cleanup"] => some .cleanup
   | ["prompt"] => some .prompt
+  | ["snoop"] => some .snoop
   | ["it", t] => some (.it t)
   | _ => none
 
@@ -142,7 +144,13 @@ def parseLine (p : Parsed) (line : String) : Parsed :=
     let l := acts.map parseAction
     if l.all Option.isSome then
       let as := l.filterMap id
-      { p with steps := p.steps ++ [as], expect := as.foldl noteAction p.expect }
+      let cy := p.steps.length + 1
+      let x := as.foldl noteAction p.expect
+      let pk := as.filterMap (fun a => match a with
+        | .send c t => some (cy, c, t)
+        | .cin t => some (cy, 0, t)
+        | _ => none)
+      { p with steps := p.steps ++ [as], expect := { x with sentAt := x.sentAt ++ pk } }
     else badl
   | _ =>
     if line.startsWith "# nosettle" then { p with expect := { p.expect with settle := false } }
@@ -196,6 +204,8 @@ def render : Ev → String
   | .tReset o => s!"t reset {o.name}"
   | .tCleanup o => s!"t cleanup {o.name}"
   | .tPrompt o => s!"t prompt {o.name}"
+  | .tSnoop o => s!"t snoop {o.name}"
+  | .xSnoop o t => s!"x snoop {o.name} {t.name}"
   | .tEpilog => "t epilog"
   | .tPreload n => s!"t preload {n}"
   | .tIt o t l => (s!"t it {o.name} {t} {l}").trimAsciiEnd.toString
@@ -229,6 +239,8 @@ def parseEv (line : String) : Ev :=
   | ["t", "co", o, t] => match parseOid o with | some o => .tCo o t | none => .crash line
   | ["t", "reset", o] => match parseOid o with | some o => .tReset o | none => .crash line
   | ["t", "cleanup", o] => match parseOid o with | some o => .tCleanup o | none => .crash line
+  | ["t", "snoop", o] => match parseOid o with | some o => .tSnoop o | none => .crash line
+  | ["x", "snoop", o, t] => match parseOid o, parseOid t with | some o, some t => .xSnoop o t | _, _ => .crash line
   | ["t", "epilog"] => .tEpilog
   | ["t", "preload", n] => .tPreload n
   | ["t", "prompt", o] => match parseOid o with | some o => .tPrompt o | none => .crash line
